@@ -7,7 +7,7 @@ from vlib import caseio, gen, runner
 
 ID = "C15"
 WIDEN_DEFAULT = True
-COQ_TARGETS = ["C15_Extract.vo", "C15_Proofs.vo", "C15_RProofs.vo"]
+COQ_TARGETS = ["C15_Extract.vo", "C15_Proofs.vo", "C15_RProofs.vo", "C15_Transport.vo"]
 EXTRACTED = "C15_model"
 DRIVER = "drv_C15.ml"
 HARNESS = "h_C15.cpp"
@@ -17,27 +17,45 @@ CLOSED_THEOREMS = ["C15_det_lemma", "C15_capacitance_invertible", "C15_woodbury"
                    "C15_blockdiag_det", "C15_uvr_det", "C15_uvr_eq_direct", "C15_uvr_eq_direct_per_block", "C15_uvr_eq_direct_shared",
                    "C15_sym_factor_assembled_spd", "C15_uvr_eq_direct_sym_factor",
                    "C15_uvr_capacitance_invertible", "C15_direct_logdet_guard", "C15_uvr_logdet_guard", "C15_uvr_det_R_guard",
-                   "C15_uvr_logdet_guard_sym_factor", "C15_density_uvr_eq_direct", "C15_log_density_uvr_eq_direct_batch", "C15_density_uvr_exp", "C15_density_exp", "C15_batch_lengths", "C15_logdensity_def"]
+                   "C15_uvr_logdet_guard_sym_factor", "C15_density_uvr_eq_direct", "C15_log_density_uvr_eq_direct_batch", "C15_density_uvr_exp", "C15_density_exp", "C15_batch_lengths", "C15_logdensity_def",
+                   # C15_Transport.v: the executed list instance (Gauss-Jordan inverse/determinant) = the MathComp instance of the theorems
+                   "C15_executed_uvr_is_theorem_model", "C15_executed_uvr_full_R_is_theorem_model", "C15_executed_uvr_shared_R_is_theorem_model",
+                   "C15_executed_uvr_sym_factor_is_theorem_model", "C15_executed_uvr_is_direct_definition", "C15_executed_direct_is_theorem_model"]
 REQUIRED_THEOREMS = CLOSED_THEOREMS + ["C15_lse_spec", "C15_lse_shift", "C15_lse_max_is_entry", "C15_lse_no_overflow", "C15_lse_neginf",
                                        "C15_lse_neginf_shift", "C15_lse_all_neginf_is_nan"]
-COQ_PREFIXES = ["C15", "C19"]           # C15_ROps / C15_RProofs import the shared real instance ROps of C19_ROps.v
-RULE = ("a fixed corpus first (ties at the maximum, uniform log-weights of length 100, ties beside -inf, b = 0, k = 0, nearly singular R), then cases from one seeded stream. uvr: num_blocks 1..4, block_size with d = num_blocks*block_size <= 8, batch 1..5, k 1..4, "
+COQ_PREFIXES = ["C15", "C19", "C01", "C02"]   # C15_ROps / C15_RProofs import the shared real instance ROps of C19_ROps.v; C15_Transport imports C01_/C02_Transport
+RULE = ("a fixed corpus first (ties at the maximum, uniform log-weights of length 100, ties beside -inf, b = 0, k = 0, nearly singular R, four call histories on one shared / full R "
+        "with the number of blocks going down, up, to one and back), then independent cases and CALL HISTORIES from one seeded stream, in a random order. "
+        "All cases of a run are evaluated by one process, on one thread, in the order of the case file; plain arguments are passed in persistent buffers (same address when the shape is the same). "
+        "uvr: num_blocks 1..4, block_size with d = num_blocks*block_size <= 8, batch 1..5, k 1..4, "
         "R shared (one block) or per block (SPD blocks, cond <= 1e5), V = U^T / W U^T (W symmetric) / general (S not symmetric, symmetric part PD) / zero, "
         "also (about 1 in 6) empty batch b = 0, k = 0 (U d x 0), and R nearly singular (block cond 1e2..1e6) with a well conditioned S and a general V (worst Woodbury cancellation); "
-        "assembled S with cond <= 1e6, evaluation points near the mean and far away (thorough: 15% of the cases with d up to 12, up to 5 blocks, k up to 6); "
-        "every call repeated with the arguments passed as blocks/segments of larger buffers; lse: length 1..50, entries in [-1e4,1e4] "
+        "assembled S with cond <= 1e6, evaluation points near the mean and far away (thorough: 15% of the cases with d up to 12, up to 5 blocks, k up to 6). "
+        "Units (half of the independent cases, 30% of the histories, and as a history step): S -> s S with the entries of R from 1e-8 to 1e8, U -> sqrt(s) t U, V -> sqrt(s)/t V with t over 8 orders, "
+        "one unit per coordinate (S -> D S D, spread up to 1e3 per coordinate, reduced until cond S <= 1e6), U -> U E, V -> E^-1 V with a diagonal E over 4 orders; the tolerances are computed from the rescaled matrices "
+        "(cond S, cond R, cond(I + V R^-1 U), sizes of the quadratic forms). "
+        "A call history is 3..7 consecutive cases; each step keeps every argument of the previous call bit-identical except the named one: number of blocks with the same shared block / the same leading blocks (both directions), "
+        "U and V, k, U only, V only, R only, R with its blocks rotated, mean, evaluation points, batch size (both directions, also 0), encoding of R (shared <-> the same block repeated in full), everything the same, units; "
+        "every case calls, in a per-case order (12 orders), log-density and density, direct and UVR, with plain matrices, with blocks/segments of larger buffers and (log-densities) with an expression argument. "
+        "Independent cases and the first case of a history also run the same four calls concurrently from 3 threads on different data of the same shapes (25 repetitions), compared bit for bit with the sequential results; "
+        "the probe has threads of its own, so it is not part of the main thread's call history. "
+        "lse: length 1..50, entries in [-1e4,1e4] "
         "(uniform / clustered at +-1e4 / equal / largest magnitude negative / maximum occurring 2..n times / ties beside -inf / Constant(n, -log n) / with -inf / all -inf), dyadic so that the shift is exact, "
-        "also as row vector, strided row, matrix and expression argument. "
+        "also as row vector, strided row, matrix and expression argument, in 4 call orders; lse histories (3..6 calls): the same vector, a prefix, the same head with more entries, other entries of the same length, shifted, "
+        "the maximum lowered (first entry unchanged), permuted; the same concurrency probe. "
+        "A violation inside a history is replayed with the calls before it (the replay file holds the history). "
         "non-trivial = uvr with num_blocks >= 2 or shared encoding, lse with length >= 2; "
-        "distinct by (d, block_size, k, encoding, V kind, batch>1, cond decade) resp. (lse kind, length bucket, has -inf)")
+        "distinct by (d, block_size, k, encoding, V kind, batch>1, cond decade, magnitude of R / 1e4, history step kind) resp. (lse kind, length bucket, has -inf, history step kind)")
 TRUSTED_BASE = ["Coq 8.16.1 kernel (coqc)",
                 "matrix theorems (Woodbury, determinant lemma, block-diagonal inverse/determinant, UVR = direct, definitions): no axioms (MathComp 1.15; ln/exp/pi uninterpreted)",
                 "log-sum-exp theorems: Coq Reals, the four standard axioms (sig_forall_dec, sig_not_dec, functional_extensionality_dep, classic)",
                 "extraction (ExtrOcamlBasic only) and ocaml/float_ops.ml, ocaml/drv_C15.ml, ocaml/caseio.ml",
-                "ListOps list instance of MatOps (structural operations and Gauss-Jordan inverse/determinant): unproved in general; its linv/ldet are "
-                "validated against exact rational inverses/determinants for sizes 1..6 incl. row swaps (Example C15_gauss_jordan_exact_Q, re-checked on every run), "
-                "and the oracle's spec values are additionally computed by numpy (slogdet/solve), independently of that routine",
-                "cpp/h_C15.cpp harness; tolerances derived from the constructed conditioning (cond R, cond(I+V R^-1 U), cond S, size of the cancelling Woodbury terms)",
+                "ListOps list instance of MatOps: proved (C15_Transport.v, ListGauss.v, ListOpsCorrect.v; no axioms) to return, over any real field and on well-formed lists, "
+                "the values of the MathComp instance for log_density_uvr / density_uvr (R in full and as one shared block), log_density_mat / density_mat and the assembly of S, "
+                "with every inverted matrix proved invertible from the SPD premises; what stays trusted is that the OCaml floats stand for the field (rounding). "
+                "Its linv/ldet are additionally run against exact rational inverses/determinants for sizes 1..6 incl. row swaps (Example C15_gauss_jordan_exact_Q), "
+                "and the oracle's spec values are also computed by numpy (slogdet/solve), independently of that routine",
+                "cpp/h_C15.cpp harness (one process, one thread for the whole case file; std::thread for the re-entrancy probe); tolerances derived from the constructed conditioning (cond R, cond(I+V R^-1 U), cond S, size of the cancelling Woodbury terms)",
                 "EOps (coq/C15_ROps.v): the extension of the reals by -inf with the IEEE meaning of + - < exp ln stated there (Bad = +inf/NaN, absorbing)",
                 "numpy float64/longdouble reference values in the oracle",
                 "correspondence is sampled: agreement is established on the generated cases only",
@@ -45,9 +63,10 @@ TRUSTED_BASE = ["Coq 8.16.1 kernel (coqc)",
 ASSUMPTIONS = ["Eigen inverse()/determinant() behave as matrix inverse/determinant up to rounding (checked against the model's Gauss-Jordan and numpy on every case)",
                "std::pow(x, n) for the integer block count is the n-fold product up to rounding (checked on every shared-R case)",
                "std::log/std::exp are the real ln/exp up to rounding; exp(-inf) = 0, -inf - finite = -inf (IEEE), checked on the -inf cases",
+               "the utilities are pure functions: a call's value does not depend on earlier calls or on calls running in other threads (checked: call histories, concurrency probe)",
                "densities are compared with a relative tolerance plus the absolute floor DBL_MIN: Eigen's vectorised exp returns 5.56e-309 instead of 0 below -709.4"]
 
-COUNTS = {"quick": (260, 160), "thorough": (12000, 8000)}
+COUNTS = {"quick": (500, 250), "thorough": (9000, 5000)}
 EPS = 2.220446049250313e-16
 # densities below the smallest normal double are indistinguishable from 0: Eigen's vectorised exp saturates at
 # exp(-709.436) = 5.56e-309 instead of returning 0 (its scalar tail lanes return 0), so the absolute floor is DBL_MIN
@@ -70,110 +89,410 @@ def mx0(a):
     return float(np.max(np.abs(a))) if a.size else 0.0
 
 
-def gen_uvr(rng, cid, big=False, force=None):
-    """force: None, "b0" (empty batch), "k0" (U d x 0, V 0 x d), "nearsing" (R nearly singular, S well conditioned)"""
+def draw_uvr(rng, big=False, force=None, enc=None, nb0=None):
+    """One random factorised covariance with evaluation points, as a state dict (see mk_uvr).
+    force: None, "b0" (empty batch), "k0" (U d x 0, V 0 x d), "nearsing" (R nearly singular, S well conditioned)"""
+    if big:       # beyond the stated ranges (thorough tier only): d up to 12, k up to 6
+        nb = rng.randint(1, 5); bs = rng.randint(1, 12 // nb); k = rng.randint(1, 6)
+    else:
+        nb = rng.randint(1, 4); bs = rng.randint(1, 8 // nb); k = rng.randint(1, 4)
+    if nb0 is not None:
+        nb = nb0; bs = rng.randint(1, (12 if big else 8) // nb)
+    kind = force if force is not None else rng.choice([None] * 20 + ["b0", "k0", "nearsing", "nearsing"])
+    if kind == "nearsing" and bs < 2:
+        bs = 2
+    d = nb * bs
+    b = 0 if kind == "b0" else rng.randint(1, 5)
+    if kind == "k0":
+        k = 0
+    enc = enc if enc is not None else rng.choice(["shared", "perblock"])
+    lo = 10 ** rng.uniform(-2, 1)
+    cmax = rng.choice([1, 3, 5])
+    W = None
+    if kind == "nearsing":
+        # every block has one eigenvalue eps << lo along q_t; U V fills exactly those directions, so that
+        # S = U V + R is well conditioned although R is nearly singular (worst cancellation in the Woodbury form)
+        def nsblock():
+            q = gen.orthogonal(rng, bs)
+            ev = np.array([lo * 10 ** -rng.uniform(2, 5)] + [lo * 10 ** rng.uniform(0, 1) for _ in range(bs - 1)])
+            B = (q * ev) @ q.T
+            return (B + B.T) / 2, q[:, 0]
+        if enc == "shared":
+            B, q0 = nsblock(); blocks, qs = [B] * nb, [q0] * nb
+        else:
+            pr = [nsblock() for _ in range(nb)]
+            blocks, qs = [p[0] for p in pr], [p[1] for p in pr]
+        k = nb
+        U = np.zeros((d, k))
+        for t in range(nb):
+            U[t * bs:(t + 1) * bs, t] = math.sqrt(lo) * 10 ** rng.uniform(0, 0.5) * qs[t]
+        V = U.T * (1 + 0.3 * gen.matrix(rng, k, d)) + 0.05 * math.sqrt(lo) * gen.matrix(rng, k, d)
+        vkind = "nearsing"
+    else:
+        if enc == "shared":
+            B, _ = gen.spd(rng, bs, 10 ** rng.uniform(0, cmax), lo)
+            blocks = [B] * nb
+        else:
+            blocks = [gen.spd(rng, bs, 10 ** rng.uniform(0, cmax), lo * 10 ** rng.uniform(-0.5, 0.5))[0] for _ in range(nb)]
+        vkind = rng.choice(["UT", "UT", "WUT", "general", "general", "zero"]) if k > 0 else "k0"
+        uscale = math.sqrt(lo) * 10 ** rng.uniform(-1, 1.5)
+        U = gen.matrix(rng, d, k, uscale).reshape(d, k)
+        if vkind == "UT":
+            V = U.T.copy()
+        elif vkind == "WUT":
+            W = gen.matrix(rng, k, k); W = (W + W.T) / 2
+            V = W @ U.T
+        elif vkind == "general":
+            V = gen.matrix(rng, k, d, uscale)
+        elif vkind == "k0":
+            V = np.zeros((0, d))
+        else:
+            V = np.zeros((k, d))
+            if rng.random() < 0.5:
+                V = gen.matrix(rng, k, d, uscale); U = np.zeros((d, k))
+    st = {"enc": enc, "bs": bs, "nb": nb, "k": k, "b": b, "blocks": blocks, "U": U, "V": V, "vkind": vkind, "lo": lo,
+          "kind": kind, "far": 1, "scaling": "none"}
+    if not settle(st):
+        return None
+    st["mean"] = gen.matrix(rng, d, 1, 3.0)
+    st["far"] = 10 ** rng.choice([0, 0, 0, 1, 2]) if kind != "nearsing" else 1
+    st["inp"] = points(rng, st, b)
+    if b > 0 and rng.random() < 0.1:
+        st["inp"][:, 0] = st["mean"][:, 0]          # a point exactly at the mean
+    return st
+
+
+def assembled(st):
+    return st["U"] @ st["V"] + blockdiag(st["blocks"])
+
+
+def settle(st):
+    """keep the symmetric part of S positive definite (then det S > 0) by shrinking U V if needed"""
+    Rd = blockdiag(st["blocks"])
+    lo = min(float(np.linalg.eigvalsh(B).min()) for B in st["blocks"])
+    for _ in range(6):
+        S = st["U"] @ st["V"] + Rd
+        if np.linalg.eigvalsh((S + S.T) / 2).min() > (0.05 * lo if st["kind"] != "nearsing" else 0.0):
+            return True
+        if st["kind"] == "nearsing":
+            return True         # judged by mk_uvr
+        st["U"] = st["U"] / 2; st["V"] = st["V"] / 2
+    return False
+
+
+def points(rng, st, b, mean=None):
+    """evaluation points: S^(1/2)-scaled around the mean, some far away"""
+    mean = st["mean"] if mean is None else mean
+    S = assembled(st)
+    d = S.shape[0]
+    L = np.linalg.cholesky((S + S.T) / 2)
+    return (mean + st["far"] * (L @ gen.matrix(rng, d, b).reshape(d, b))).reshape(d, b)
+
+
+def rescale(rng, st):
+    """Physical units: the same Gaussian in other units.  kinds: "global" (S -> s S with s over 16 orders of magnitude,
+    U -> sqrt(s) t U, V -> sqrt(s)/t V with t over 8 orders: the factors U, V are far apart in size although U V is not),
+    "coord" (S -> D S D with a diagonal D, one unit per coordinate of a block; the same D in every block so that a
+    shared block stays shared; the spread is reduced until cond S <= 1e6), "kspace" (U -> U E, V -> E^-1 V, diagonal E:
+    S unchanged, I + V R^-1 U replaced by a similar matrix).  Points and mean follow the units.  The tolerances are
+    computed by mk_uvr from the rescaled matrices."""
+    how = rng.choice(["global", "global", "coord", "coord", "kspace", "global+coord"])
+    d, k, bs, nb = st["nb"] * st["bs"], st["k"], st["bs"], st["nb"]
+    out = dict(st); out["scaling"] = how
+    if "global" in how:
+        hi = max(float(np.abs(B).max()) for B in st["blocks"])
+        low = min(float(np.linalg.eigvalsh(B).min()) for B in st["blocks"])
+        e = rng.uniform(-8 - math.log10(low), 8 - math.log10(hi)) if rng.random() < 0.7 else rng.choice([-8 - math.log10(low), 8 - math.log10(hi)])
+        s = 10.0 ** e
+        t = 10.0 ** rng.uniform(-4, 4)
+        rs = math.sqrt(s)
+        out["blocks"] = share([B * s for B in st["blocks"]], st)
+        out["U"], out["V"] = st["U"] * (rs * t), st["V"] * (rs / t)
+        out["mean"], out["inp"] = st["mean"] * rs, st["inp"] * rs
+        st = out; out = dict(st)
+    if "coord" in how:
+        spread = rng.choice([0.5, 1.0, 1.5, 3.0])
+        for _ in range(8):
+            if st["enc"] == "shared" or rng.random() < 0.3:
+                dv = np.tile(10.0 ** np.array([rng.uniform(-spread, spread) for _ in range(bs)]), nb)
+            else:
+                dv = 10.0 ** np.array([rng.uniform(-spread, spread) for _ in range(d)])
+            D = np.diag(dv)
+            S2 = D @ assembled(st) @ D
+            if np.linalg.cond(S2) <= 0.9e6:
+                break
+            spread /= 2
+        else:
+            dv = np.ones(d); D = np.eye(d)
+        blocks = [np.diag(dv[i * bs:(i + 1) * bs]) @ B @ np.diag(dv[i * bs:(i + 1) * bs]) for i, B in enumerate(st["blocks"])]
+        out["blocks"] = share([(B + B.T) / 2 for B in blocks], st)
+        out["U"], out["V"] = D @ st["U"], st["V"] @ D
+        out["mean"], out["inp"] = D @ st["mean"], D @ st["inp"]
+    if how == "kspace" and k > 0:
+        ev = 10.0 ** np.array([rng.uniform(-2, 2) for _ in range(k)]) * 10.0 ** rng.uniform(-4, 4)
+        out["U"], out["V"] = st["U"] * ev, (st["V"].T / ev).T
+    return out
+
+
+def share(blocks, st):
+    """a shared block stays ONE array (bit-identical blocks)"""
+    return [blocks[0]] * len(blocks) if st["enc"] == "shared" else blocks
+
+
+def mk_uvr(cid, st, extra=None):
+    """The case of a state, with the conditioning data the tolerances are derived from; None when the assembled S is
+    outside the quantifier (cond S > 1e6, symmetric part not positive definite) or the case class cannot be judged."""
+    enc, bs, nb, k, blocks, U, V, mean, inp = (st[n] for n in ("enc", "bs", "nb", "k", "blocks", "U", "V", "mean", "inp"))
+    kind, vkind, far = st["kind"], st["vkind"], st["far"]
+    d, b = nb * bs, inp.shape[1]
+    R = blocks[0] if enc == "shared" else np.hstack(blocks)
+    Rd = blockdiag(blocks)
+    S = U @ V + Rd
+    if not np.all(np.isfinite(S)) or np.linalg.eigvalsh((S + S.T) / 2).min() <= 0:
+        return None
+    condS = float(np.linalg.cond(S))
+    if not (condS <= 1e6 and np.linalg.slogdet(S)[0] > 0):
+        return None
+    condR = max(float(np.linalg.cond(B)) for B in blocks)
+    if kind == "nearsing" and not condR > 30 * condS:
+        return None
+    Ri = np.linalg.inv(Rd)
+    Mc = np.eye(k) + V @ Ri @ U
+    condM = float(np.linalg.cond(Mc)) if k > 0 else 1.0
+    if not condM <= 1e10:
+        return None
+    diff = inp - mean
+    q1 = mx0(np.einsum("ij,ij->j", diff, Ri @ diff))
+    Wd = Ri @ U @ np.linalg.solve(Mc, V @ Ri) if k > 0 else np.zeros((d, d))
+    q2 = mx0(np.einsum("ij,ij->j", diff, Wd @ diff))
+    q = mx0(np.einsum("ij,ij->j", diff, np.linalg.solve(S, diff)))
+    # norm-wise sizes (for a non-symmetric S the quadratic forms can be much smaller than their terms)
+    qn = mx0(np.sum(diff * diff, axis=0)) * float(np.linalg.norm(np.linalg.inv(S), 2))
+    q1n = mx0(np.sum(diff * diff, axis=0)) * float(np.linalg.norm(Ri, 2))
+    q2n = (mx0(np.linalg.norm(U.T @ Ri.T @ diff, axis=0) * np.linalg.norm(V @ Ri @ diff, axis=0))
+           * float(np.linalg.norm(np.linalg.inv(Mc), 2))) if k > 0 else 0.0
+    meta = {"d": d, "b": b, "k": k, "bs": bs, "nb": nb, "enc": enc, "vkind": vkind,
+            "condS": "%.4g" % condS, "condR": "%.4g" % condR, "condM": "%.4g" % condM,
+            "q1": "%.4g" % q1, "q1n": "%.4g" % q1n, "q2": "%.4g" % max(q2, q2n), "q": "%.4g" % q, "qn": "%.4g" % qn, "far": far,
+            "scaling": st.get("scaling", "none"), "mag": gen.decade(max(mx0(Rd), 1e-300))}
+    meta.update(extra or {})
+    c = caseio.Case(cid, "uvr", meta)
+    c.mat_shape("input", d, b, inp).mat_shape("mean", d, 1, mean).mat_shape("U", d, k, U).mat_shape("V", k, d, V)
+    c.mat_shape("R", bs, R.shape[1], R).mat_shape("cov", d, d, S)
+    return c
+
+
+def gen_uvr(rng, cid, big=False, force=None, scaled=None):
+    """one independent case; scaled: None = in about half of the cases the units are changed (rescale)"""
     while True:
-        if big:       # beyond the stated ranges (thorough tier only): d up to 12, k up to 6
-            nb = rng.randint(1, 5); bs = rng.randint(1, 12 // nb); k = rng.randint(1, 6)
+        st = draw_uvr(rng, big, force)
+        if st is None:
+            continue
+        if (scaled if scaled is not None else rng.random() < 0.5) and st["kind"] != "nearsing":
+            st = rescale(rng, st)
+        c = mk_uvr(cid, st, {"order": rng.randrange(12)})
+        if c is not None:
+            c.int("order", int(c.meta["order"]))
+            return c
+
+
+# ----------------------------------------------------------------------------- call histories
+
+UVR_MUTATIONS = ["nb", "nb", "nb", "uv", "k", "u", "v", "r", "rperm", "mean", "inp", "b", "b", "enc", "same", "units"]
+
+
+def mutate(rng, st, mut, big=False, arg=None):
+    """The next call of a history: a copy of the state in which the arguments named by `mut` change and ALL OTHER arrays
+    are the same objects (bit-identical arguments of the next call).  None when the mutation does not apply."""
+    n = dict(st)
+    enc, bs, nb, k, b = st["enc"], st["bs"], st["nb"], st["k"], st["inp"].shape[1]
+    d = nb * bs
+    lo = min(float(np.linalg.eigvalsh(B).min()) for B in st["blocks"])
+    usc = max(mx0(st["U"]), mx0(st["V"]), 1e-3 * math.sqrt(lo)) if st["vkind"] != "zero" else 0.0
+    # sizes of U and V separately (after a change of units they differ by orders of magnitude)
+    us = mx0(st["U"]) if mx0(st["U"]) > 0 else usc
+    vs = mx0(st["V"]) if mx0(st["V"]) > 0 else usc
+
+    def newU(r, c):
+        return gen.matrix(rng, r, c, us / 2).reshape(r, c)
+
+    def newV(r, c):
+        return gen.matrix(rng, r, c, vs / 2).reshape(r, c)
+
+    def newblock():
+        B0 = st["blocks"][0]
+        ev = np.linalg.eigvalsh(B0)
+        return gen.spd(rng, bs, max(1.0, float(ev.max() / ev.min())) * 10 ** rng.uniform(-0.3, 0.3), float(ev.min()) * 10 ** rng.uniform(-0.5, 0.5))[0]
+
+    if mut == "nb":
+        # another number of blocks with the SAME block(s): R given as one shared block is bit-identical
+        cap = (12 if big else 8) // bs
+        choices = [m for m in range(1, min(cap, 5 if big else 4) + 1) if m != nb]
+        if not choices:
+            return None
+        nb2 = arg if arg in choices else rng.choice(choices)
+        d2 = nb2 * bs
+        if enc == "shared":
+            n["blocks"] = [st["blocks"][0]] * nb2
         else:
-            nb = rng.randint(1, 4); bs = rng.randint(1, 8 // nb); k = rng.randint(1, 4)
-        kind = force if force is not None else rng.choice([None] * 20 + ["b0", "k0", "nearsing", "nearsing"])
-        if kind == "nearsing" and bs < 2:
-            bs = 2
-        d = nb * bs
-        b = 0 if kind == "b0" else rng.randint(1, 5)
-        if kind == "k0":
-            k = 0
-        enc = rng.choice(["shared", "perblock"])
-        lo = 10 ** rng.uniform(-2, 1)
-        cmax = rng.choice([1, 3, 5])
-        if kind == "nearsing":
-            # every block has one eigenvalue eps << lo along q_t; U V fills exactly those directions, so that
-            # S = U V + R is well conditioned although R is nearly singular (worst cancellation in the Woodbury form)
-            def nsblock():
-                q = gen.orthogonal(rng, bs)
-                ev = np.array([lo * 10 ** -rng.uniform(2, 5)] + [lo * 10 ** rng.uniform(0, 1) for _ in range(bs - 1)])
-                B = (q * ev) @ q.T
-                return (B + B.T) / 2, q[:, 0]
-            if enc == "shared":
-                B, q0 = nsblock(); blocks, qs = [B] * nb, [q0] * nb; R = B
-            else:
-                pr = [nsblock() for _ in range(nb)]
-                blocks, qs = [p[0] for p in pr], [p[1] for p in pr]; R = np.hstack(blocks)
-            k = nb
-            U = np.zeros((d, k))
-            for t in range(nb):
-                U[t * bs:(t + 1) * bs, t] = math.sqrt(lo) * 10 ** rng.uniform(0, 0.5) * qs[t]
-            V = U.T * (1 + 0.3 * gen.matrix(rng, k, d)) + 0.05 * math.sqrt(lo) * gen.matrix(rng, k, d)
-            vkind = "nearsing"
+            n["blocks"] = list(st["blocks"][:nb2]) + [newblock() for _ in range(nb2 - nb)]
+        if d2 < d:
+            n["U"] = st["U"][:d2, :].copy()
+            n["V"] = n["U"].T.copy() if st["vkind"] == "UT" else st["V"][:, :d2].copy()
+            n["mean"], n["inp"] = st["mean"][:d2].copy(), st["inp"][:d2].copy()
         else:
-            if enc == "shared":
-                B, _ = gen.spd(rng, bs, 10 ** rng.uniform(0, cmax), lo)
-                blocks = [B] * nb; R = B
-            else:
-                blocks = [gen.spd(rng, bs, 10 ** rng.uniform(0, cmax), lo * 10 ** rng.uniform(-0.5, 0.5))[0] for _ in range(nb)]
-                R = np.hstack(blocks)
-            vkind = rng.choice(["UT", "UT", "WUT", "general", "general", "zero"]) if k > 0 else "k0"
-            uscale = math.sqrt(lo) * 10 ** rng.uniform(-1, 1.5)
-            U = gen.matrix(rng, d, k, uscale).reshape(d, k)
-            if vkind == "UT":
-                V = U.T.copy()
-            elif vkind == "WUT":
-                W = gen.matrix(rng, k, k); W = (W + W.T) / 2
-                V = W @ U.T
-            elif vkind == "general":
-                V = gen.matrix(rng, k, d, uscale)
-            elif vkind == "k0":
-                V = np.zeros((0, d))
-            else:
-                V = np.zeros((k, d))
-                if rng.random() < 0.5:
-                    V = gen.matrix(rng, k, d, uscale); U = np.zeros((d, k))
-        Rd = blockdiag(blocks)
-        S = U @ V + Rd
-        # keep the symmetric part positive definite (then det S > 0) by shrinking U V if needed
-        for _ in range(6):
-            if np.linalg.eigvalsh((S + S.T) / 2).min() > (0.05 * lo if kind != "nearsing" else 0.0):
-                break
-            if kind == "nearsing":
-                break
-            U = U / 2; V = V / 2; S = U @ V + Rd
+            n["U"] = np.vstack([st["U"], newU(d2 - d, k) if usc > 0 else np.zeros((d2 - d, k))])
+            n["V"] = n["U"].T.copy() if st["vkind"] == "UT" else np.hstack([st["V"], newV(k, d2 - d) if usc > 0 else np.zeros((k, d2 - d))])
+            n["mean"] = np.vstack([st["mean"], st["mean"][:d2 - d] if d2 - d <= d else gen.matrix(rng, d2 - d, 1, mx0(st["mean"]) + 1e-300)])
+            n["inp"] = None
+        n["nb"] = nb2
+        if st["vkind"] == "WUT":
+            n["vkind"] = "general"
+    elif mut == "uv":
+        if k == 0 or usc == 0:
+            return None
+        n["U"] = newU(d, k)
+        n["V"] = n["U"].T.copy() if st["vkind"] == "UT" else newV(k, d)
+        if st["vkind"] == "WUT":
+            n["vkind"] = "general"
+    elif mut == "k":
+        if st["vkind"] in ("k0", "nearsing") or usc == 0:
+            return None
+        k2 = rng.choice([m for m in range(1, (6 if big else 4) + 1) if m != k])
+        n["U"] = np.hstack([st["U"][:, :k2], newU(d, max(0, k2 - k))])
+        n["V"] = n["U"].T.copy() if st["vkind"] == "UT" else np.vstack([st["V"][:k2, :], newV(max(0, k2 - k), d)])
+        n["k"] = k2
+        if st["vkind"] == "WUT":
+            n["vkind"] = "general"
+    elif mut in ("u", "v"):
+        if k == 0 or usc == 0 or st["vkind"] == "nearsing":
+            return None
+        if mut == "u":
+            n["U"] = newU(d, k)
         else:
+            n["V"] = newV(k, d)
+        n["vkind"] = "general"
+    elif mut == "r":
+        n["blocks"] = share([newblock() for _ in range(nb)], st)
+        if st["kind"] == "nearsing":
+            return None
+    elif mut == "rperm":
+        if enc == "shared" or nb < 2:
+            return None
+        n["blocks"] = list(st["blocks"][1:]) + [st["blocks"][0]]
+    elif mut == "mean":
+        n["mean"] = st["mean"] + gen.matrix(rng, d, 1, math.sqrt(lo) * 10 ** rng.uniform(-1, 1))
+    elif mut == "inp":
+        n["inp"] = None
+    elif mut == "b":
+        b2 = rng.choice([m for m in [0, 1, 2, 3, 4, 5, 7] if m != b])
+        n["inp"] = st["inp"][:, :b2].copy() if b2 < b else None
+        n["b"] = b2
+    elif mut == "enc":
+        if enc == "shared":
+            n["enc"] = "perblock"; n["blocks"] = [st["blocks"][0].copy() for _ in range(nb)]
+        else:
+            n["enc"] = "shared"; n["blocks"] = [st["blocks"][0]] * nb
+    elif mut == "units":
+        if st["kind"] == "nearsing":
+            return None
+        return rescale(rng, st)
+    elif mut != "same":
+        raise ValueError(mut)
+    n["scaling"] = st.get("scaling", "none")
+    if not settle(n):
+        return None
+    if n["inp"] is None:
+        try:
+            bnew = n.get("b", b) if mut == "b" else b
+            fresh = points(rng, n, bnew)
+        except np.linalg.LinAlgError:
+            return None
+        if mut == "b" and bnew > b:
+            fresh[:, :b] = st["inp"]            # the earlier points again, more behind them
+        n["inp"] = fresh
+    n["b"] = n["inp"].shape[1]
+    return n
+
+
+def gen_uvr_chain(rng, chain_id, big=False, length=None, first=None, muts=None, enc=None, nb=None):
+    """A call history: consecutive cases; each shares bit-identical arguments with the call before it.
+    muts: planned mutations (names or (name, argument)) tried first, in order."""
+    while True:
+        st = draw_uvr(rng, big, first, enc, nb)
+        if st is None:
             continue
-        if np.linalg.eigvalsh((S + S.T) / 2).min() <= 0:
+        if rng.random() < 0.3 and st["kind"] != "nearsing":
+            st = rescale(rng, st)
+        c = mk_uvr("%s.0" % chain_id, st, {"chain": chain_id, "step": 0, "mut": "start", "order": rng.randrange(12)})
+        if c is not None:
+            break
+    out = [c]
+    length = length if length is not None else rng.randint(3, 7)
+    planned = list(muts) if muts else []
+    tries = 0
+    while len(out) < length and tries < 6 * length:
+        tries += 1
+        mut = planned.pop(0) if planned else rng.choice(UVR_MUTATIONS)
+        mut, arg = mut if isinstance(mut, tuple) else (mut, None)
+        n = mutate(rng, st, mut, big, arg)
+        if n is None:
             continue
-        condS = float(np.linalg.cond(S))
-        if not (condS <= 1e6 and np.linalg.det(S) > 0):
+        c = mk_uvr("%s.%d" % (chain_id, len(out)), n, {"chain": chain_id, "step": len(out), "mut": mut, "order": rng.randrange(12)})
+        if c is None:
             continue
-        condR = max(float(np.linalg.cond(B)) for B in blocks)
-        if kind == "nearsing" and not condR > 30 * condS:
-            continue
-        Ri = np.linalg.inv(Rd)
-        Mc = np.eye(k) + V @ Ri @ U
-        condM = float(np.linalg.cond(Mc)) if k > 0 else 1.0
-        mean = gen.matrix(rng, d, 1, 3.0)
-        # evaluation points: S^(1/2)-scaled around the mean, some far away
-        Ssym = (S + S.T) / 2
-        L = np.linalg.cholesky(Ssym)
-        far = 10 ** rng.choice([0, 0, 0, 1, 2]) if kind != "nearsing" else 1
-        inp = (mean + far * (L @ gen.matrix(rng, d, b).reshape(d, b))).reshape(d, b)
-        if b > 0 and rng.random() < 0.1:
-            inp[:, 0] = mean[:, 0]          # a point exactly at the mean
-        diff = inp - mean
-        q1 = mx0(np.einsum("ij,ij->j", diff, Ri @ diff))
-        Wd = Ri @ U @ np.linalg.solve(Mc, V @ Ri) if k > 0 else np.zeros((d, d))
-        q2 = mx0(np.einsum("ij,ij->j", diff, Wd @ diff))
-        q = mx0(np.einsum("ij,ij->j", diff, np.linalg.solve(S, diff)))
-        # norm-wise sizes (for a non-symmetric S the quadratic forms can be much smaller than their terms)
-        qn = mx0(np.sum(diff * diff, axis=0)) * float(np.linalg.norm(np.linalg.inv(S), 2))
-        q2n = (mx0(np.linalg.norm(U.T @ Ri.T @ diff, axis=0) * np.linalg.norm(V @ Ri @ diff, axis=0))
-               * float(np.linalg.norm(np.linalg.inv(Mc), 2))) if k > 0 else 0.0
-        c = caseio.Case(cid, "uvr", {"d": d, "b": b, "k": k, "bs": bs, "nb": nb, "enc": enc, "vkind": vkind,
-                                      "condS": "%.4g" % condS, "condR": "%.4g" % condR, "condM": "%.4g" % condM,
-                                      "q1": "%.4g" % q1, "q2": "%.4g" % max(q2, q2n), "q": "%.4g" % q, "qn": "%.4g" % qn, "far": far})
-        c.mat_shape("input", d, b, inp).mat_shape("mean", d, 1, mean).mat_shape("U", d, k, U).mat_shape("V", k, d, V)
-        c.mat_shape("R", bs, R.shape[1], R).mat_shape("cov", d, d, S)
-        return c
+        st = n
+        out.append(c)
+    for c in out:
+        c.int("order", int(c.meta["order"]))
+        c.int("probe", 1 if int(c.meta["step"]) == 0 else 0)     # the probe's own calls must not sit between two steps
+    return out
+
+
+def gen_lse_chain(rng, chain_id):
+    """log_sum_exp histories: the same vector again, a prefix, a longer vector with the same head, other entries of the
+    same length, the shifted vector, a vector whose maximum is elsewhere / smaller than the previous maximum"""
+    base = gen_lse(rng, "x")
+    x = [float(t) for t in base.get("x").reshape(-1)]
+    out, kind = [], base.meta["lkind"]
+    length = rng.randint(3, 6)
+    for j in range(length):
+        if j > 0:
+            mut = rng.choice(["same", "prefix", "longer", "entries", "shift", "lower", "perm"])
+            fin = [v for v in x if not math.isinf(v)]
+            if mut == "prefix" and len(x) > 1:
+                x = x[:rng.randint(1, len(x) - 1)]
+            elif mut == "longer":
+                x = x + [dyadic(rng.uniform(-1e4, 1e4)) if rng.random() < 0.5 else dyadic((max(fin) if fin else 0.0) - rng.uniform(0, 30)) for _ in range(rng.randint(1, 10))]
+            elif mut == "entries":
+                x = [float(t) for t in gen_lse(rng, "x").get("x").reshape(-1)][:len(x)] if rng.random() < 0.5 else [v if math.isinf(v) else dyadic(v + rng.uniform(-3, 3)) for v in x]
+            elif mut == "shift":
+                sh = dyadic(rng.uniform(-50, 50)); x = [v + sh for v in x]
+            elif mut == "lower" and fin:
+                m = max(fin); x = [v if v != m else dyadic(m - rng.uniform(1, 200)) for v in x]
+            elif mut == "perm":
+                x = list(x); rng.shuffle(x)
+            x = [v if math.isinf(v) else max(-1e4, min(1e4, v)) for v in x]
+        else:
+            mut = "start"
+        knd = ("neginf" if kind == "allneginf" else kind) if any(not math.isinf(v) for v in x) else "allneginf"
+        c = lse_case(rng, "%s.%d" % (chain_id, j), knd, list(x))
+        c.meta.update({"chain": chain_id, "step": j, "mut": mut, "order": rng.randrange(4)})
+        c.int("order", int(c.meta["order"])).int("probe", 1 if j == 0 else 0)
+        out.append(c)
+    return out
+
+
+def link_chains(cases):
+    """c.history = the cases of the same chain that come before c (the calls the process made before this one that share
+    arguments with it); used for the replay file of a violation"""
+    seen = {}
+    for c in cases:
+        ch = c.meta.get("chain")
+        c.history = list(seen.get(ch, [])) if ch is not None else []
+        if ch is not None:
+            seen.setdefault(ch, []).append(c)
+    return cases
 
 
 def dyadic(x):
@@ -250,25 +569,39 @@ def corpus(rng):
     n = len(out)
     for j, f in enumerate(["b0", "b0", "k0", "k0", "nearsing", "nearsing", "nearsing", "nearsing"]):
         out.append(gen_uvr(rng, "c%d" % (n + j), False, f))
+    # call histories on one shared block: fewer blocks, more blocks, one block, and back; then the same for R in full
+    out += gen_uvr_chain(rng, "hc0", False, 5, "plain", [("nb", 2), ("nb", 1), ("nb", 4), "same"], "shared", 3)
+    out += gen_uvr_chain(rng, "hc1", False, 5, "plain", [("nb", 3), "b", ("nb", 2), "uv"], "shared", 1)
+    out += gen_uvr_chain(rng, "hc2", False, 5, "plain", [("nb", 1), "enc", ("nb", 3), "r"], "perblock", 2)
+    out += gen_uvr_chain(rng, "hc3", False, 6, "plain", ["uv", "r", "mean", "b", "inp"], None, None)
+    out += gen_lse_chain(rng, "hc4")
     return out
+
+
+CHAINS = {"quick": (260, 80), "thorough": (1600, 500)}
 
 
 def generate(rng, tier):
     nu, nl = COUNTS[tier]
-    cases = corpus(rng)
-    cases += [gen_uvr(rng, i, tier == "thorough" and rng.random() < 0.15) for i in range(nu)]
-    cases += [gen_lse(rng, nu + i) for i in range(nl)]
-    return cases
+    cu, cl = CHAINS[tier]
+    units = [[gen_uvr(rng, i, tier == "thorough" and rng.random() < 0.15)] for i in range(nu)]
+    units += [[gen_lse(rng, nu + i)] for i in range(nl)]
+    units += [gen_uvr_chain(rng, "h%d" % i, tier == "thorough" and rng.random() < 0.15) for i in range(cu)]
+    units += [gen_lse_chain(rng, "l%d" % i) for i in range(cl)]
+    # the units in a random order (a history is never interleaved with other cases: its calls are consecutive)
+    head = corpus(rng)
+    rng.shuffle(units)
+    return link_chains(head + [c for u in units for c in u])
 
 
 def nontrivial(c):
     if c.kind == "uvr":
         if int(c.meta["nb"]) >= 2 or c.meta["enc"] == "shared":
             return ("uvr", c.meta["d"], c.meta["bs"], c.meta["k"], c.meta["enc"], c.meta["vkind"], int(c.meta["b"]) > 1,
-                    gen.decade(float(c.meta["condS"])))
+                    gen.decade(float(c.meta["condS"])), int(c.meta.get("mag", 0)) // 4, c.meta.get("mut", "-"))
         return None
     if int(c.meta["n"]) >= 2:
-        return ("lse", c.meta["lkind"], int(c.meta["n"]) // 10, int(c.meta["neginf"]) > 0, int(c.meta.get("maxcount", 1)) > 1)
+        return ("lse", c.meta["lkind"], int(c.meta["n"]) // 10, int(c.meta["neginf"]) > 0, int(c.meta.get("maxcount", 1)) > 1, c.meta.get("mut", "-"))
     return None
 
 
@@ -337,8 +670,27 @@ def lse_ref(x):
     return float(np.longdouble(m) + np.log(s))
 
 
+def where(c):
+    """the call history of a case, for the detail text of a violation"""
+    if c.meta.get("chain") is None or int(c.meta.get("step", 0)) == 0:
+        return ""
+    return " [call %s of history %s: the call before it had the same arguments except '%s'; the replay file holds the whole history]" % (
+        c.meta["step"], c.meta["chain"], c.meta.get("mut"))
+
+
 def oracle(c, impl, model):
+    v = oracle_(c, impl, model)
+    w = where(c)
+    return [(sig, detail + w) for sig, detail in v] if w else v
+
+
+def oracle_(c, impl, model):
     v = []
+    if impl.has("concurrent_equal") and impl.get("concurrent_equal") != 1:
+        # "for every mean, covariance, batch / for entries of any magnitude": the value of a call does not depend on what
+        # other threads compute at the same time (two filters in one process)
+        v.append(("C15:%s:concurrent-callers-interfere" % c.kind, "a call made while other threads call the same utilities on other data of the "
+                  "same shapes returned a result that differs from the same call made alone (hidden shared state)"))
     if c.kind == "lse":
         x = [float(t) for t in c.get("x").reshape(-1)]
         sh = float(c.get("c")[0, 0])
@@ -415,13 +767,17 @@ def oracle(c, impl, model):
         if np.all(np.isfinite(ldu)) and not close_log(ldu, sl, td + tu):
             v.append(("C15:uvr-not-extracted-definition:%s" % tag, "max diff %.3g > %.3g" % (caseio.maxdiff(ldu, sl), td + tu)))
     # arguments passed as blocks / segments of larger buffers: same values
-    for nm, plain, tol in (("ld_views", ld, td), ("ldu_views", ldu, tu)):
+    for nm, plain, tol in (("ld_views", ld, td), ("ldu_views", ldu, tu), ("ld_expr", ld, td), ("ldu_expr", ldu, tu)):
         a = impl.get(nm)
         if a is None or a.shape != plain.shape or (np.all(np.isfinite(plain)) and not close_log(a, plain, tol)):
-            v.append(("C15:view-arguments:%s" % nm, "called with blocks of larger matrices: %s, with plain matrices: %s"
+            v.append(("C15:view-arguments:%s" % nm, "called with blocks of larger matrices / an expression argument: %s, with plain matrices: %s"
                       % (None if a is None else a.reshape(-1)[:3], plain.reshape(-1)[:3])))
     # density = exp(log-density): the same libm exp on the same double, so bit-for-bit up to one rounding of exp
-    for nm, dens, lg in (("direct", dn, ld), ("uvr", dnu, ldu)):
+    for nm, dens, lg in (("direct", dn, ld), ("uvr", dnu, ldu), ("direct(views)", impl.get("dn_views"), impl.get("ld_views")),
+                         ("uvr(views)", impl.get("dnu_views"), impl.get("ldu_views"))):
+        if dens is None or lg is None or dens.shape != lg.shape:
+            v.append(("C15:batch-shape:%s" % nm, "density through views missing or of another shape than the log-density"))
+            continue
         if np.all(np.isfinite(lg)):
             e = np.exp(lg)
             if not bool(np.all(np.abs(dens - e) <= 4 * EPS * e + DBL_MIN)):
@@ -436,16 +792,27 @@ def on_crash(c, info, model):
 
 
 def histogram(cases):
-    h = {"kind": {}, "uvr_enc_vkind": {}, "uvr_shape": {}, "lse_kind": {}, "condS_decade": {}}
+    h = {"kind": {}, "uvr_enc_vkind": {}, "uvr_shape": {}, "lse_kind": {}, "condS_decade": {}, "uvr_R_entry_decade": {}, "uvr_scaling": {},
+         "history_step_changes": {}, "history_lengths": {}}
+    lens = {}
+    for c in cases:
+        if c.meta.get("chain") is not None:
+            lens[c.meta["chain"]] = lens.get(c.meta["chain"], 0) + 1
+    for n in lens.values():
+        h["history_lengths"][str(n)] = h["history_lengths"].get(str(n), 0) + 1
 
     def inc(d, k):
         d[str(k)] = d.get(str(k), 0) + 1
     for c in cases:
         inc(h["kind"], c.kind)
+        if c.meta.get("chain") is not None and int(c.meta.get("step", 0)) > 0:
+            inc(h["history_step_changes"], "%s:%s" % (c.kind, c.meta.get("mut")))
         if c.kind == "uvr":
             inc(h["uvr_enc_vkind"], "%s/%s" % (c.meta["enc"], c.meta["vkind"]))
             inc(h["uvr_shape"], "nb=%s bs=%s" % (c.meta["nb"], c.meta["bs"]))
             inc(h["condS_decade"], gen.decade(float(c.meta["condS"])))
+            inc(h["uvr_R_entry_decade"], c.meta.get("mag", "?"))
+            inc(h["uvr_scaling"], c.meta.get("scaling", "none"))
         else:
             inc(h["lse_kind"], c.meta["lkind"])
     return h
@@ -456,9 +823,11 @@ LEVEL_TEXT = ("Proof: the model of utils::multivariate_gaussian_log_density(_UVR
               "for every real field, every number of blocks, block size, k, batch, to return per evaluation point the direct log-density "
               "-1/2(d ln 2pi + ln det S + delta^T S^-1 delta) of the assembled S = U V + blockdiag(R), given invertible blocks and invertible S "
               "(invertibility of I + V R^-1 U is derived; for V = U^T and SPD blocks every premise is derived); density = exp(log-density). Over R: log_sum_exp = ln sum exp, the shift law, "
-              "no overflow (shifted exponents <= 0, one = 0, 1 <= sum <= n), and the -inf extension. The model is tied to the code by running the "
-              "extracted model and the library on the same generated cases.")
-LEVEL_NOTE = ("Trusted: Coq kernel, MathComp, Reals axioms (lse only), extraction + float driver, list instance of the matrix interface, harness and tolerances; "
+              "no overflow (shifted exponents <= 0, one = 0, 1 <= sum <= n), and the -inf extension. The executed list instance of the density models "
+              "(UVR with R in full / shared, direct, assembly of S; Gauss-Jordan inverse and determinant) is proved equal to the MathComp instance on SPD inputs "
+              "(C15_Transport.v, every inverted matrix proved invertible). The model is tied to the code by running the "
+              "extracted model and the library on the same generated cases, including call histories with bit-identical repeated arguments and concurrent callers.")
+LEVEL_NOTE = ("Trusted: Coq kernel, MathComp, Reals axioms (lse only), extraction + float driver (floats for field elements), harness and tolerances; "
               "rounding is not modelled; the tie to the code is sampled. ln/exp/pi are uninterpreted in the matrix theorems (only congruence is used), so "
               "positivity of det S is not needed there; on the float side the generator keeps det S > 0.")
 
@@ -472,7 +841,7 @@ def main(ctx, a):
             if ax:
                 ctx.proof_problems.append("theorem %s must be closed under the global context but depends on %s" % (t, ax))
     if a.replay:
-        cases = caseio.read_cases(a.replay)
+        cases = link_chains(caseio.read_cases(a.replay))
         ctx.log("replaying %d case(s) from %s" % (len(cases), a.replay))
     else:
         cases = generate(ctx.rng, a.tier)
@@ -480,4 +849,9 @@ def main(ctx, a):
         runner.standard_cases(ctx, cases)
     runner.widen_if_needed(ctx, sys.modules[__name__], a)
     ctx.extra["histogram"] = histogram(cases)
+    # a violation inside a call history is replayed with the calls before it (one process, same order)
+    for c in [t[2] for t in ctx.violations] + [t[0] for t in ctx.corr_diffs[:1]]:
+        hist = getattr(c, "history", None)
+        if hist and "dump" not in c.__dict__:
+            c.dump = (lambda c=c, hist=hist: "".join(type(h).dump(h) for h in hist) + type(c).dump(c))
     return runner.finish(ctx)
